@@ -1921,7 +1921,7 @@ def gen_history(rng, env, expr):
     # (not compared: fresh against fresh is what the applications check)
     steps.append({'s': 'call', 'n': 1, 'compare': False})
     called = True
-  for _ in range(rng.choice([1, 1, 2])):
+  for _ in range(rng.choice([1, 1, 1, 2])):
     chain = []
     for j in range(rng.choice([1, 1, 1, 2])):
       anchor = called and j == 0
